@@ -471,25 +471,17 @@ def run(ctx):
     # ---- 2. proofs
     ctx.prove("C15/Props.v")
     ctx.log("Props.v: %d/%d" % (ctx.cov["discharged"], ctx.cov["obligations"]))
-    # does the generated model still have the number fall-through?  (witness 10 vs 9)
-    hdr0 = coq_header([])
-    try:
-        bad = ctx.coq_failing(hdr0, ["Z.eqb (struct_cmp fr (TInt 10) (TInt 9)) 1"], name="probe")
-        numbers_ok = not bad
-    except RuntimeError as e:
-        ctx.broken.append("correspondence:generated model does not evaluate")
-        ctx.notes.append(str(e))
-        numbers_ok = False
-    ctx.cov["model_number_fallthrough_present"] = not numbers_ok
-    if numbers_ok:
-        # the defect is gone: the full-strength theorems are obligations now
-        ctx.prove("C15/PropsFixed.v")
-        ctx.log("PropsFixed.v proved: obligations now %d/%d" % (ctx.cov["discharged"], ctx.cov["obligations"]))
-    opt = {}
+    # Findings.v (witness 10 vs 9 on the generated model, built with make, so cached while the source is unchanged)
+    opt, okf = {}, {}
     for rel in ("C15/Findings.v", "C15/FindingsQuoted.v"):
-        ok, tail = optional_build(ctx, rel)
-        opt[rel] = "compiles (defect reproduced on the generated model)" if ok else "does not compile (known finding no longer reproduces)"
+        okf[rel], tail = optional_build(ctx, rel)
+        opt[rel] = "compiles (defect reproduced on the generated model)" if okf[rel] else "does not compile (known finding no longer reproduces)"
     ctx.cov["findings_files"] = opt
+    ctx.cov["model_number_fallthrough_present"] = okf["C15/Findings.v"]
+    if not okf["C15/Findings.v"]:
+        # the number fall-through is gone from the generated model: the full-strength theorems are obligations now
+        ctx.prove("C15/PropsFixed.v")
+        ctx.log("PropsFixed.v: obligations now %d/%d" % (ctx.cov["discharged"], ctx.cov["obligations"]))
 
     if ctx.replay:
         replay(ctx)
@@ -569,30 +561,12 @@ def run(ctx):
     report(ctx, laws, None)
 
     # ---- 5. the generated model on the same pairs, and the Python reference against the Coq order
+    # (all Coq-side cases are collected and evaluated in one go at the end: coqc start-up dominates small runs)
     hdr = coq_header(encs)
-    try:
-        bad_impl = ctx.coq_failing(hdr, ["row_impl p%d %s" % (i, zlist([x if isinstance(x, int) else 77 for x in M[i]])) for i in range(n)],
-                                   name="rowimpl", shard=max(4, 6000 // n))
-        bad_spec = ctx.coq_failing(hdr, ["row_spec p%d %s" % (i, zlist(E[i])) for i in range(n)], name="rowspec", shard=max(4, 6000 // n))
-    except RuntimeError as e:
-        ctx.broken.append("correspondence:C15 rows do not evaluate in Coq")
-        ctx.notes.append(str(e))
-        bad_impl, bad_spec = [], []
-    ctx.cov["model_vs_impl_rows_agree"] = n - len(bad_impl)
-    ctx.cov["pyref_vs_coq_order_rows_agree"] = n - len(bad_spec)
-    for i in bad_spec[:3]:
-        ctx.broken.append("correspondence:harness reference std_cmp differs from ModelStd.plg_cmp in row of %s" % sources[i])
-    for i in bad_impl[:3]:
-        # locate the pair
-        cs = ["Z.eqb (struct_cmp fr p%d p%d) (%s)%%Z" % (i, j, M[i][j] if isinstance(M[i][j], int) else 77) for j in range(n)]
-        try:
-            bj = ctx.coq_failing(hdr, cs, name="rowimpl1")
-        except RuntimeError:
-            bj = []
-        for j in bj[:2]:
-            ctx.broken.append("correspondence:generated struct_cmp model differs from problog.engine_builtin.struct_cmp on (%s, %s): impl %r"
-                              % (sources[i], sources[j], M[i][j]))
-    ctx.log("coq: model-vs-impl rows bad=%d, reference-vs-coq rows bad=%d" % (len(bad_impl), len(bad_spec)))
+    coq_cases = []   # (kind, meta, bool term)
+    for i in range(n):
+        coq_cases.append(("rowimpl", i, "row_impl p%d %s" % (i, zlist([x if isinstance(x, int) else 77 for x in M[i]]))))
+        coq_cases.append(("rowspec", i, "row_spec p%d %s" % (i, zlist(E[i]))))
 
     # ---- 6. through the engine: compare/3 (both modes), @<.., ==, \==
     npairs_engine = ctx.n(n * n, 200000)
@@ -641,26 +615,14 @@ def run(ctx):
     sel = list(range(len(allpairs)))
     if len(sel) > ctx.n(6000, 60000):
         sel = sorted(ctx.rng.sample(sel, ctx.n(6000, 60000)))
-    cases = []
     for idx in sel:
         (i, j), ob = allpairs[idx], eng_obs[idx]
         if ob[0] == "EXC" or ob[0] is None or ob[0] == "MULTI":
-            cases.append("false")
+            coq_cases.append(("eng", idx, "false"))
             continue
-        cases.append("eng_ok p%d p%d %s %s %s %s %s %s %s %s %s %s" % (
+        coq_cases.append(("eng", idx, "eng_ok p%d p%d %s %s %s %s %s %s %s %s %s %s" % (
             i, j, coq_text(ob[0]), *[vf.coq_bool(t in ob[1]) for t in ("lt", "eq", "gt")],
-            *[vf.coq_bool(t in ob[2]) for t in ("lt", "le", "gt", "ge", "eq", "ne")]))
-    try:
-        bad = ctx.coq_failing(hdr, cases, name="eng", shard=1500)
-    except RuntimeError as e:
-        ctx.broken.append("correspondence:C15 engine cases do not evaluate in Coq")
-        ctx.notes.append(str(e))
-        bad = []
-    ctx.cov["model_vs_engine_pairs_checked"] = len(cases)
-    ctx.cov["model_vs_engine_pairs_agree"] = len(cases) - len(bad)
-    for b in bad[:3]:
-        (i, j), ob = allpairs[sel[b]], eng_obs[sel[b]]
-        ctx.broken.append("correspondence:generated builtin models differ from the engine on (%s, %s): engine %r" % (sources[i], sources[j], ob))
+            *[vf.coq_bool(t in ob[2]) for t in ("lt", "le", "gt", "ge", "eq", "ne")])))
 
     # compare/3 called the usual Prolog way, with an unquoted order atom
     r = engine_batch_plain()
@@ -685,43 +647,93 @@ def run(ctx):
     res = []
     for r in pl.pmap(sort_batch, [lists[lo:lo + Bs] for lo in range(0, len(lists), Bs)], chunksize=1):
         res.extend(r)
-    found = []
-    cases_m, cases_s, metas = [], [], []
-    for xs, (inp, ob) in zip(lists, res):
-        ctx.case(("sort", tuple(xs)), len(set(xs)) > 1, sample={"sort": xs, "result": None if inp is None else "…"})
+    index_of = {src: i for i, src in enumerate(sources)}
+    enc_index = {}
+    for i, e in enumerate(encs):
+        enc_index.setdefault(e, i)
+
+    def pref(e):
+        return "p%d" % enc_index[e] if e in enc_index else coq_term(e)
+    failing = {}   # frozenset of classes of the mis-compared element pairs -> [lists]
+    nbad = 0
+    for li, (xs, (inp, ob)) in enumerate(zip(lists, res)):
+        ctx.case(("sort", tuple(xs)), len(set(xs)) > 1, sample={"sort": xs})
         ctx.count("sort_len_%d" % len(xs))
         if inp is None or ob is None or (isinstance(ob, tuple) and ob and ob[0] == "EXC"):
-            found.append((None, len(xs), "sort(%s, L) failed or raised: %r" % ("[" + ",".join(xs) + "]", ob),
-                          {"kind": "sort", "list": xs, "observed": repr(ob)}))
+            nbad += 1
+            ctx.violation("sort(%s, L) failed or raised: %r" % ("[" + ",".join(xs) + "]", ob), {"kind": "sort", "list": xs, "observed": repr(ob)}, klass=None)
             continue
         exp = spec_sort(inp)
-        obd = [denote(e) for e in ob]
-        if obd != exp:
-            small_xs = shrink_list(xs)
-            k = classify_sort(small_xs)
-            found.append((k, sum(len(s) for s in small_xs),
-                          "sort([%s], L) gives %s, the standard order says %s" % (",".join(small_xs), show_sort(small_xs)[0], show_sort(small_xs)[1]),
-                          {"kind": "sort", "list": small_xs, "observed": show_sort(small_xs)[0], "expected": show_sort(small_xs)[1]}))
-        cases_m.append("sort_ok [%s] [%s]" % ("; ".join(coq_term(e) for e in inp), "; ".join(coq_term(e) for e in ob)))
-        cases_s.append("sort_spec_ok [%s] [%s]" % ("; ".join(coq_term(e) for e in inp), "; ".join(coq_term(e) for e in exp)))
-        metas.append(xs)
+        if [denote(e) for e in ob] != exp:
+            nbad += 1
+            ks = set()
+            for x in xs:
+                for y in xs:
+                    i, j = index_of[x], index_of[y]
+                    if M[i][j] != E[i][j]:
+                        ks.add(classify(encs[i], encs[j], M[i][j]) if isinstance(M[i][j], int) else None)
+            failing.setdefault(frozenset(ks), []).append(xs)
+        cin = "; ".join(pref(e) for e in inp)
+        coq_cases.append(("sortm", li, "sort_ok [%s] [%s]" % (cin, "; ".join(pref(e) for e in ob))))
+        coq_cases.append(("sorts", li, "sort_spec_ok [%s] [%s]" % (cin, "; ".join(pref(e) for e in exp))))
     ctx.cov["sort_lists"] = len(lists)
-    ctx.cov["sort_lists_agree_with_spec"] = len(lists) - len(found)
+    ctx.cov["sort_lists_agree_with_spec"] = len(lists) - nbad
+    found = []
+    for ks in sorted(failing, key=lambda z: sorted(str(k) for k in z)):
+        group = sorted(failing[ks], key=lambda xs: (sum(len(x) for x in xs), xs))
+        ctx.count("sort_violating_lists[%s]" % "+".join(sorted(str(k) for k in ks)), len(group))
+        # a wrong result although every element pair compares correctly, or an unclassified pair: never suppressed
+        for xs in group[:2]:
+            small_xs = shrink_list(xs)
+            k = classify_sort(small_xs) if (ks and None not in ks) else None
+            o, e = show_sort(small_xs)
+            found.append((k, sum(len(x) for x in small_xs), "sort([%s], L) gives %s, the standard order says %s" % (",".join(small_xs), o, e),
+                          {"kind": "sort", "list": small_xs, "observed": o, "expected": e}))
     report(ctx, found, None)
+    ctx.log("sort: %d lists, %d disagree with the spec" % (len(lists), nbad))
+
+    # ---- 8. evaluate the Coq side: generated model vs observations, harness reference vs Coq definitions
+    terms = [c[2] for c in coq_cases]
+    shard = len(terms) if ctx.tier == "quick" else max(50, (len(terms) + 11) // 12)
     try:
-        bm = ctx.coq_failing(hdr, cases_m, name="sortm", shard=800)
-        bs = ctx.coq_failing(hdr, cases_s, name="sorts", shard=800)
+        bad = ctx.coq_failing(hdr, terms, name="all", shard=max(1, shard), timeout=1500, jobs=6)
     except RuntimeError as e:
-        ctx.broken.append("correspondence:C15 sort cases do not evaluate in Coq")
+        ctx.broken.append("correspondence:C15 cases do not evaluate in Coq")
         ctx.notes.append(str(e))
-        bm, bs = [], []
-    ctx.cov["model_vs_engine_sort_agree"] = len(cases_m) - len(bm)
-    ctx.cov["pyref_vs_coq_sort_agree"] = len(cases_s) - len(bs)
-    for b in bm[:3]:
-        ctx.broken.append("correspondence:generated sort model differs from sort/2 on [%s]" % ",".join(metas[b]))
-    for b in bs[:3]:
-        ctx.broken.append("correspondence:harness reference sort differs from ModelStd.plg_sort on [%s]" % ",".join(metas[b]))
-    ctx.log("sort: %d lists, %d disagree with the spec; model-vs-engine bad=%d" % (len(lists), len(found), len(bm)))
+        bad = None
+    if bad is not None:
+        badk = {}
+        for b in bad:
+            badk.setdefault(coq_cases[b][0], []).append(coq_cases[b][1])
+        tot = {}
+        for k, _, _ in coq_cases:
+            tot[k] = tot.get(k, 0) + 1
+        ctx.cov["coq_side"] = {"model_vs_impl_rows(struct_cmp, %d columns each)" % n: "%d/%d agree" % (tot.get("rowimpl", 0) - len(badk.get("rowimpl", [])), tot.get("rowimpl", 0)),
+                               "harness_reference_vs_ModelStd_rows": "%d/%d agree" % (tot.get("rowspec", 0) - len(badk.get("rowspec", [])), tot.get("rowspec", 0)),
+                               "model_vs_engine_pairs(compare/3 both modes, 6 comparison builtins)": "%d/%d agree" % (tot.get("eng", 0) - len(badk.get("eng", [])), tot.get("eng", 0)),
+                               "model_vs_engine_sort_lists": "%d/%d agree" % (tot.get("sortm", 0) - len(badk.get("sortm", [])), tot.get("sortm", 0)),
+                               "harness_reference_vs_ModelStd_sort": "%d/%d agree" % (tot.get("sorts", 0) - len(badk.get("sorts", [])), tot.get("sorts", 0))}
+        for i in badk.get("rowspec", [])[:3]:
+            ctx.broken.append("correspondence:harness reference std_cmp differs from ModelStd.plg_cmp in the row of %s" % sources[i])
+        for i in badk.get("rowimpl", [])[:3]:
+            cs = ["Z.eqb (struct_cmp fr p%d p%d) (%s)%%Z" % (i, j, M[i][j] if isinstance(M[i][j], int) else 77) for j in range(n)]
+            try:
+                bj = ctx.coq_failing(hdr, cs, name="rowimpl1", shard=len(cs))
+            except RuntimeError:
+                bj = []
+            for j in bj[:2]:
+                ctx.broken.append("correspondence:generated struct_cmp model differs from problog.engine_builtin.struct_cmp on (%s, %s): impl %r"
+                                  % (sources[i], sources[j], M[i][j]))
+            if not bj:
+                ctx.broken.append("correspondence:generated struct_cmp model differs from the implementation in the row of %s" % sources[i])
+        for idx in badk.get("eng", [])[:3]:
+            (i, j), ob = allpairs[idx], eng_obs[idx]
+            ctx.broken.append("correspondence:generated builtin models differ from the engine on (%s, %s): engine %r" % (sources[i], sources[j], ob))
+        for li in badk.get("sortm", [])[:3]:
+            ctx.broken.append("correspondence:generated sort model differs from sort/2 on [%s]" % ",".join(lists[li]))
+        for li in badk.get("sorts", [])[:3]:
+            ctx.broken.append("correspondence:harness reference sort differs from ModelStd.plg_sort on [%s]" % ",".join(lists[li]))
+        ctx.log("coq side: %d cases, %d bad" % (len(terms), len(bad)))
     if ctx.tier == "thorough":
         ctx.coqchk("PL.C15.Props")
 
